@@ -476,6 +476,24 @@ func c11Named(c *core.Ctx, id string) {
 	os.MkdirAll(filepath.Join(base, "tmp"), 0o755)
 	ctx := context.Background()
 	switch id {
+	case "named/patch-repeated-moves-to-prerelease":
+		// "get a@patch" on a project that is not selected yet picks the latest release v1.1.1;
+		// repeating it then moves to v1.1.3-alpha, the highest version of that minor line.
+		u := specUniverse(map[string][]string{"a v1.1.1": nil, "a v1.1.3-alpha": nil, "b v1.0.0": nil})
+		cfg := &project.Config{Name: "root", Requirements: map[string]project.RequirementConfig{"b": {Path: "github.com/org/r0/b", Version: "v1.0.0"}}}
+		res := mvs.NewResolver(filepath.Join(base, "cache"), u.dialer(), nil)
+		q := "github.com/org/r0/a@patch"
+		first, err := mvs.Get(ctx, cloneCfg(cfg), res, q)
+		if err != nil {
+			c.Violation(id, id, "operation-fails", map[string]any{"error": err.Error()})
+			return
+		}
+		second, err := mvs.Get(ctx, &project.Config{Name: "root", Requirements: first}, res, q)
+		c.Eval(id)
+		c.Distinct(id + "/second")
+		if err != nil || !reflect.DeepEqual(first, second) {
+			c.Violation(id, id, "repeating-the-operation-changes-the-result", map[string]any{"query": q, "root": cfg.Requirements, "first_result": first, "second_result": second, "second_error": fmt.Sprint(err), "universe": u.describe()})
+		}
 	case "named/get-lands-above-resolved-version":
 		// a@v1.1.0 requires c@v1.0.0, which requires a@v1.2.0: "get a@v1.1.0" lands on v1.2.0, and
 		// repeating it then downgrades to v1.0.0.
@@ -719,6 +737,14 @@ func mvsCase(c *core.Ctx, which, id string) {
 		if !landed {
 			c.Count("get_landed_on_another_version_idempotence_not_asserted", 1)
 		}
+		if landed && op == "get" && u.refResolve(q, after) != want {
+			// patch/upgrade queries are relative to the current selection: once the project is
+			// selected the same text resolves to another version (a patch query on an absent project
+			// picks the latest release, on a present one the highest version of its minor line,
+			// pre-releases included). Known finding, named scenario; not asserted for random cases.
+			landed = false
+			c.Count("state_dependent_query_idempotence_not_asserted", 1)
+		}
 		again, err := apply(next)
 		if landed && (err != nil || !reflect.DeepEqual(again, out)) {
 			viol("repeating-the-operation-changes-the-result", w(map[string]any{"second_result": again, "second_error": fmt.Sprint(err)}))
@@ -770,8 +796,10 @@ func runMVS(c *core.Ctx, which string) {
 		n = c.N(300, 10000)
 	}
 	var ids []string
-	if which == "C11" && c.Want("named/get-lands-above-resolved-version") {
-		ids = append(ids, "named/get-lands-above-resolved-version")
+	for _, nm := range []string{"named/get-lands-above-resolved-version", "named/patch-repeated-moves-to-prerelease"} {
+		if which == "C11" && c.Want(nm) {
+			ids = append(ids, nm)
+		}
 	}
 	for i := 0; i < n; i++ {
 		if id := fmt.Sprintf("u/%d", i); c.Want(id) {
